@@ -477,7 +477,7 @@ Interaction F_sample_interaction(CoreTrackView const* track)
 __CPROVER_requires(VIEW_OK(track))
 __CPROVER_assigns(g_result)
 __CPROVER_ensures(__CPROVER_return_value.action >= 0 && __CPROVER_return_value.action <= 3)
-__CPROVER_ensures(__CPROVER_return_value.energy >= 0 && !__CPROVER_isinfd(__CPROVER_return_value.energy) && __CPROVER_return_value.energy_deposition >= 0 && !__CPROVER_isinfd(__CPROVER_return_value.energy_deposition))
+__CPROVER_ensures(__CPROVER_return_value.energy >= 0 && !__CPROVER_isinfd(__CPROVER_return_value.energy) && __CPROVER_return_value.energy_deposition >= 0 && !__CPROVER_isinfd(__CPROVER_return_value.energy_deposition) && __CPROVER_return_value.energy_deposition < (1l << 40))
 __CPROVER_ensures(__CPROVER_return_value.secondaries.ptr == g_secs && __CPROVER_return_value.secondaries.size == g_nsec)
 __CPROVER_ensures(g_result.action == __CPROVER_return_value.action && g_result.energy == __CPROVER_return_value.energy && g_result.energy_deposition == __CPROVER_return_value.energy_deposition)
 ;
@@ -521,7 +521,7 @@ IAP_RULES = Q_RULES + [
     Rule(r"for \(auto& secondary : result\.secondaries\)\s*\{",
          "for (size_type si_ = 0; si_ < result.secondaries.size; ++si_)\n        {\n            Secondary* secondary = &result.secondaries.ptr[si_];\n" + "IAP_PER_ELEMENT" + IAP_GHOST_STEP, 1,
          note="range-for over a Span -> index loop; ghost injected"),
-    Rule(r"cutoff\.apply\(secondary\)", "CUT_apply(&cutoff, secondary)", 1, note="view call"),
+    Rule(r"cutoff\.apply\(secondary\)", "g_cut[si_] /* CutoffView::apply(secondary): any predicate of the secondary, tabulated per element */", 1, note="view call -> ghost predicate table"),
     Rule(r"secondary\.energy", "secondary->energy", "*", note="reference -> pointer"),
     Rule(r"auto sec_par = track\.make_particle_view\(secondary\.particle_id\);", "ParticleView sec_par = {secondary->particle_id};", (0, 1), note="ParticleView for the secondary's id"),
     Rule(r"sec_par\.(is_antiparticle|mass)\(\)", r"PV_\1(&sec_par)", "*", note="ParticleView call"),
@@ -535,7 +535,9 @@ IAP_RULES = Q_RULES + [
 
 def build_interaction_applier(ctx):
     pc = ctx.func(IAP, r"^InteractionApplierBaseImpl<F>::operator\(\)\(celeritas::CoreTrackView const& track\)", IAP_RULES, name="InteractionApplierBaseImpl<F>::operator()")
-    body = pc.body.replace("IAP_PER_ELEMENT", "")
+    cut = '            __CPROVER_assert(deposition == g_sum, "ghost.lockstep: deposition so far equals the specified sum"); __CPROVER_assume(deposition == g_sum); /* cut: checked, then used */\n'
+    body = pc.body.replace("IAP_PER_ELEMENT", cut)
+    body = body.replace("PhysicsStepView physs =", cut + "    PhysicsStepView physs =")
     return (VHDR + IAP_MODEL + """
 #define T0(f) __CPROVER_old(track->t->f)
 void IAP_call(CoreTrackView const* track)
@@ -564,12 +566,27 @@ void h_iap(void)
 {
     Track t; CoreTrackView v = {&t}; size_type n, k; unsigned r;
     __CPROVER_assume(n <= NSEC);
-    Secondary* s = malloc(n * sizeof(Secondary)); __CPROVER_assume(s != 0);
+    Secondary s[NSEC + 1];
     g_secs = s; g_nsec = n; g_k = k; g_apply_post = (r != 0);
-    for (unsigned i = 0; i < NPART; ++i) { unsigned a; g_anti[i] = (a != 0); __CPROVER_assume(g_mass[i] >= 0 && !__CPROVER_isinfd(g_mass[i])); }
-    for (unsigned i = 0; i < NSEC; ++i) { unsigned c; g_cut[i] = (c != 0); if (i < n) __CPROVER_assume(s[i].particle_id < NPART && s[i].energy >= 0 && !__CPROVER_isinfd(s[i].energy)); }
+    for (unsigned i = 0; i < NPART; ++i) { unsigned a; g_anti[i] = (a != 0); __CPROVER_assume(g_mass[i] >= 0 && !__CPROVER_isinfd(g_mass[i]) && g_mass[i] < (1l << 40)); }
+    for (unsigned i = 0; i < NSEC; ++i) { unsigned c; g_cut[i] = (c != 0); if (i < n) __CPROVER_assume(s[i].particle_id < NPART && s[i].energy >= 0 && !__CPROVER_isinfd(s[i].energy) && s[i].energy < (1l << 40)); }
     if (k < n) g_old = s[k];
+    __CPROVER_assume(t.energy_deposition < (1l << 40));
     IAP_call(&v);
     VERIF_CANARY();
 }
 """)
+
+
+def _iap_unit(nsec, tier, timeout):
+    return Unit("c01_interaction_applier_n%d" % nsec, build_interaction_applier, "h_iap", enforce="IAP_call", unwind=NPART_UNWIND, object_bits=10, defines=["NSEC=%d" % nsec, "VERIF_REAL_AS_INT"], tier=tier,
+                bounded="at most %d secondaries per interaction (loop unwound); real_type abstracted to exact 64-bit integers for this unit (no rounding; overflow excluded by range assumptions)" % nsec,
+                replace=["F_sample_interaction", "STV_step_limit", "PTV_energy_set", "GEO_set_dir", "STV_status_set", "PSV_deposit_energy", "PSV_secondaries_set"], timeout=timeout, backend=["sat"],
+                must_have=[r"IAP_call.postcondition", r"unwinding assertion", r"PSV_deposit_energy.precondition", r"PTV_energy_set.precondition", r"STV_step_limit.precondition"], checks=["--bounds-check", "--pointer-check"],
+                assumptions=["interactor F returns any Interaction with energy, deposition >= 0 finite; CutoffView::apply is any predicate on the secondary (ghost table); particle table (antiparticle flag, mass >= 0) arbitrary",
+                             "per-secondary validity (valid particle id, finite non-negative energy) (harness)"],
+                note="InteractionApplier: failure leaves energy/status/deposition/secondaries untouched and requests a zero step with the failure action; otherwise E' = result.energy, killed iff absorbed, deposition += local deposit + sum over sub-cut secondaries of (kinetic energy + 2mc^2 iff the SECONDARY is an antiparticle) in lock-step; cut secondaries cleared, others untouched")
+
+
+NPART_UNWIND = 10
+UNITS += [_iap_unit(4, "quick", 900), _iap_unit(8, "thorough", 7200)]
